@@ -251,3 +251,17 @@ class TaggedPriorEdge(PositionPriorEdge):
             t = line[len(cls.TAG) + 1:].split()
             return cls([int(t[0])], float(t[3]) * np.eye(2), np.array([float(t[1]), float(t[2])]))
         return None
+
+
+from graphslam.edge.edge_odometry import EdgeOdometry as _EdgeOdometry  # noqa: E402
+
+
+class OverridingOdometry(_EdgeOdometry):
+    """A registered custom type that claims the built-in tag EDGE_SE2 (registered types are consulted before the built-in edge parsers)."""
+
+    @classmethod
+    def from_g2o(cls, line, g2o_params_or_none=None):
+        if line.startswith("EDGE_SE2 "):
+            e = _EdgeOdometry.from_g2o(line, g2o_params_or_none)
+            return cls(e.vertex_ids, e.information, e.estimate)
+        return None
